@@ -1,12 +1,601 @@
+// Package c27: cross-chain merkle paths (merkle.MerkleLeafPath / MerkleProve / MerkleHashes /
+// depth / HashLeaf / HashChildren and TreeHasher.HashFullTreeWithLeafHash).
+//
+// Correspondence: for every list size 1..64 a list of leaf hashes of random values, the tree
+// levels and both roots, the path of EVERY member (and the code's own verdict on it), a
+// non-member, a dozen mutated paths (value / sibling / position byte / truncation / trailing
+// bytes / extra steps / non-minimal length prefix / foreign root / 32+ steps) and two
+// domain-separation attacks, each with the code's answer; the Coq model re-computes all of them
+// (Corr/C27.v).  depth(n) is recorded for boundary and random n up to 2^53.
+//
+// Oracle (directly on the implementation): every generated path proves its value against the
+// RFC root the ledger stores; no accepted path yields a value whose leaf hash is outside the
+// list; level root = RFC root = root recomputed from the specification; depth(n) = ceil(log2 n)
+// for every n in 1..2^20; MAX_SIZE boundary; no panic.
 package c27
 
-import "verif/harness/hx"
+import (
+	"bytes"
+	"fmt"
+	"math/bits"
+	"strings"
+
+	"github.com/ontio/ontology/common"
+	"github.com/ontio/ontology/merkle"
+
+	"verif/harness/hx"
+)
 
 func init() {
 	registerGen()
 	hx.Register("C27", Run)
 }
 
+type replayIn struct {
+	Kind   string   `json:"kind"` // complete | sound | roots | depth | size
+	Hashes []string `json:"hashes,omitempty"`
+	Data   string   `json:"data,omitempty"`
+	Path   string   `json:"path,omitempty"`
+	N      int      `json:"n,omitempty"`
+	Note   string   `json:"note,omitempty"`
+}
+
+func hexes(hs []common.Uint256) []string {
+	var out []string
+	for _, h := range hs {
+		out = append(out, hx.Hex(h[:]))
+	}
+	return out
+}
+
+func unhexes(ss []string) []common.Uint256 {
+	var out []common.Uint256
+	for _, s := range ss {
+		var h common.Uint256
+		copy(h[:], hx.UnHex(s))
+		out = append(out, h)
+	}
+	return out
+}
+
+func coqHashes(hs []common.Uint256) string {
+	var it []string
+	for _, h := range hs {
+		it = append(it, hx.CoqBytes(h[:]))
+	}
+	return hx.CoqList(it)
+}
+
+// ---- running the implementation ----
+
+func leafPath(data []byte, hs []common.Uint256) (path []byte, coq string, kind string) {
+	var err error
+	panicked, msg := hx.Recover(func() { path, err = merkle.MerkleLeafPath(data, hs) })
+	switch {
+	case panicked:
+		return nil, "(inl EPanic)", "panic:" + msg
+	case err == nil:
+		return path, "(inr " + hx.CoqBytes(path) + ")", "ok"
+	case strings.Contains(err.Error(), "over max value"):
+		return nil, "(inl ETooLarge)", "too-large"
+	case strings.Contains(err.Error(), "doesn't exist"):
+		return nil, "(inl ENotFound)", "not-found"
+	}
+	return nil, "(inl EPanic)", "unknown-error:" + err.Error()
+}
+
+func prove(path []byte, root common.Uint256) (value []byte, coq string, kind string) {
+	var err error
+	panicked, msg := hx.Recover(func() { value, err = merkle.MerkleProve(path, root) })
+	switch {
+	case panicked:
+		return nil, "(inl EPanicV)", "panic:" + msg // no such constructor: the case fails to type-check on purpose
+	case err == nil:
+		return value, "(inr " + hx.CoqBytes(value) + ")", "ok"
+	case err.Error() == "read bytes error":
+		return nil, "(inl EReadBytes)", "read-bytes"
+	case err.Error() == "read byte error":
+		return nil, "(inl EReadByte)", "read-byte"
+	case err.Error() == "read hash error":
+		return nil, "(inl EReadHash)", "read-hash"
+	case strings.HasPrefix(err.Error(), "excepted root is not equal"):
+		return nil, "(inl ERootMismatch)", "root-mismatch"
+	}
+	return nil, "(inl EPanicV)", "unknown-error:" + err.Error()
+}
+
+func rfcRoot(hs []common.Uint256) (root common.Uint256, panicMsg string) {
+	_, panicMsg = hx.Recover(func() { root = merkle.TreeHasher{}.HashFullTreeWithLeafHash(hs) })
+	return
+}
+
+func member(h common.Uint256, hs []common.Uint256) bool {
+	for _, x := range hs {
+		if x == h {
+			return true
+		}
+	}
+	return false
+}
+
+// ---- oracles ----
+
+// oracleComplete: MerkleLeafPath(data, hs) for a member must give a path that MerkleProve accepts
+// against the RFC root and that yields data.
+func oracleComplete(c *hx.Ctx, hs []common.Uint256, rfc common.Uint256, data []byte) (path []byte, coq string) {
+	in := replayIn{Kind: "complete", Hashes: hexes(hs), Data: hx.Hex(data)}
+	path, coq, kind := leafPath(data, hs)
+	c.Eval()
+	c.Count("leafpath:" + strings.SplitN(kind, ":", 2)[0])
+	if kind != "ok" {
+		c.Fail("complete:no-path-for-member", "a member of the list within the size bound gets a path", in, kind, "a path")
+		return nil, coq
+	}
+	v, _, pk := prove(path, rfc)
+	c.Eval()
+	if pk != "ok" || !bytes.Equal(v, data) {
+		in.Path = hx.Hex(path)
+		c.Fail("complete:generated-path-rejected", "the generated path proves the value against the list's root", in,
+			fmt.Sprintf("%s %x", pk, v), "ok "+hx.Hex(data))
+	}
+	return path, coq
+}
+
+// oracleSound: whatever MerkleProve accepts against the list's root must be a value whose leaf
+// hash is in the list.
+func oracleSound(c *hx.Ctx, hs []common.Uint256, root common.Uint256, path []byte, what string) (coq string) {
+	v, coq, kind := prove(path, root)
+	c.Eval()
+	c.Count("prove[" + what + "]:" + strings.SplitN(kind, ":", 2)[0])
+	in := replayIn{Kind: "sound", Hashes: hexes(hs), Path: hx.Hex(path), Note: what}
+	if strings.HasPrefix(kind, "panic") || strings.HasPrefix(kind, "unknown") {
+		c.Fail("prove:"+strings.SplitN(kind, ":", 2)[0], "MerkleProve returns a value or one of its four errors", in, kind, nil)
+	}
+	if kind == "ok" && !member(merkle.HashLeaf(v), hs) {
+		c.Fail("sound:nonmember-accepted", "no path proves a value whose leaf hash is not in the list", in,
+			"accepted value "+hx.Hex(v), "rejected")
+	}
+	return coq
+}
+
+func oracleRoots(c *hx.Ctx, t *table, hs []common.Uint256) (rfc common.Uint256, levels [][]common.Uint256, ok bool) {
+	in := replayIn{Kind: "roots", Hashes: hexes(hs)}
+	rfc, pm := rfcRoot(hs)
+	c.Eval()
+	if pm != "" {
+		c.Fail("root:panic", "HashFullTreeWithLeafHash does not panic", in, pm, nil)
+		return rfc, nil, false
+	}
+	if want := t.refRFC(hs); rfc != want {
+		c.Fail("root:rfc-differs-from-spec", "HashFullTreeWithLeafHash is the RFC-6962 tree hash with 0x01 node prefix", in, hx.Hex(rfc[:]), hx.Hex(want[:]))
+	}
+	if len(hs) == 0 {
+		return rfc, nil, true
+	}
+	d := merkle.VerifDepth(len(hs))
+	_, pm = hx.Recover(func() { levels = merkle.MerkleHashes(hs, d) })
+	c.Eval()
+	if pm != "" || len(levels) == 0 || len(levels[0]) != 1 {
+		c.Fail("root:levels-malformed", "MerkleHashes(hs, depth(n)) ends in a single root", in, fmt.Sprint(pm, " depth ", d), nil)
+		return rfc, nil, false
+	}
+	if levels[0][0] != rfc {
+		c.Fail("root:levels-vs-rfc", "the level-by-level root is the RFC root stored as CrossStatesRoot", in, hx.Hex(levels[0][0][:]), hx.Hex(rfc[:]))
+	}
+	if want := t.refLevelRoot(hs); levels[0][0] != want {
+		c.Fail("root:levels-differ-from-spec", "the level-by-level root is pairwise hashing with promotion of the odd element", in, hx.Hex(levels[0][0][:]), hx.Hex(want[:]))
+	}
+	return rfc, levels, true
+}
+
+func oracleDepth(c *hx.Ctx, n int) {
+	got := merkle.VerifDepth(n)
+	want := bits.Len(uint(n - 1))
+	if got != want {
+		c.Fail("depth:float-vs-int", "depth(n) = ceil(log2 n)", replayIn{Kind: "depth", N: n}, got, want)
+	}
+}
+
+// oracleSize: the size check is the generated formula against MAX_SIZE (boundary exact).
+func oracleSize(c *hx.Ctx, n, dataLen int) {
+	hs := make([]common.Uint256, n)
+	for i := range hs {
+		hs[i][0] = byte(i)
+		hs[i][1] = byte(i >> 8)
+		hs[i][2] = 0xA5
+	}
+	data := bytes.Repeat([]byte{7}, dataLen)
+	hs[n/2] = merkle.HashLeaf(data)
+	size := n*(common.UINT256_SIZE+1) + dataLen + 8
+	_, _, kind := leafPath(data, hs)
+	c.Eval()
+	want := "ok"
+	if size > merkle.MAX_SIZE {
+		want = "too-large"
+	}
+	c.Count("size-boundary:" + kind)
+	if kind != want {
+		c.Fail("size:bound", "MerkleLeafPath accepts exactly the inputs with n*33+len(data)+8 <= MAX_SIZE",
+			replayIn{Kind: "size", N: n, Note: fmt.Sprint("dataLen=", dataLen)}, kind, want)
+	}
+}
+
+// ---- path surgery ----
+
+type pstep struct {
+	pos byte
+	sib common.Uint256
+}
+
+func encodePath(value []byte, steps []pstep) []byte {
+	sink := common.NewZeroCopySink(nil)
+	sink.WriteVarBytes(value)
+	for _, s := range steps {
+		sink.WriteByte(s.pos)
+		sink.WriteHash(s.sib)
+	}
+	return sink.Bytes()
+}
+
+// stepsFrom climbs from element idx of levels[lv] to the root (levels as returned by MerkleHashes).
+func stepsFrom(levels [][]common.Uint256, lv, idx int) []pstep {
+	var out []pstep
+	for ; lv > 0; lv-- {
+		sub := levels[lv]
+		if idx == len(sub)-1 && len(sub)%2 == 1 {
+			idx /= 2
+			continue
+		}
+		if idx%2 == 1 {
+			out = append(out, pstep{0, sub[idx-1]})
+		} else {
+			out = append(out, pstep{1, sub[idx+1]})
+		}
+		idx /= 2
+	}
+	return out
+}
+
+func valueLenPrefix(path []byte) int { // size of the canonical varuint prefix for short values
+	if path[0] < 0xfd {
+		return 1
+	}
+	return 3
+}
+
+// mutations of one valid path (value v at index i, k steps)
+func mutate(c *hx.Ctx, path []byte, vlen int, other []byte, kinds map[string][]byte) {
+	pl := valueLenPrefix(path)
+	stepsOff := pl + vlen
+	k := (len(path) - stepsOff) / 33
+	cp := func() []byte { return append([]byte{}, path...) }
+	if vlen > 0 {
+		p := cp()
+		p[pl+c.Intn(vlen)] ^= byte(1 << uint(c.Intn(8)))
+		kinds["value-bitflip"] = p
+	}
+	if k > 0 {
+		p := cp()
+		j := c.Intn(k)
+		p[stepsOff+33*j+1+c.Intn(32)] ^= byte(1 << uint(c.Intn(8)))
+		kinds["sibling-bitflip"] = p
+		p = cp()
+		p[stepsOff+33*c.Intn(k)] ^= 1
+		kinds["position-flip"] = p
+		p = cp()
+		p[stepsOff+33*c.Intn(k)] = []byte{2, 0x80, 0xff}[c.Intn(3)]
+		kinds["position-other"] = p
+		kinds["drop-last-step"] = cp()[:len(path)-33]
+		p = append(cp()[:stepsOff], path[stepsOff+33:]...)
+		kinds["drop-first-step"] = p
+		kinds["dup-last-step"] = append(cp(), path[len(path)-33:]...)
+	}
+	cut := []int{1, 2, 16, 31, 32}[c.Intn(5)]
+	if cut < len(path) {
+		kinds["truncate"] = cp()[:len(path)-cut]
+	}
+	kinds["trailing-short"] = append(cp(), c.Bytes(1+c.Intn(8))...)
+	if 31-k > 0 {
+		kinds["trailing-max-ignored"] = append(cp(), c.Bytes(31-k)...)
+	}
+	kinds["trailing-one-too-many"] = append(cp(), c.Bytes(32-k)...)
+	kinds["extra-step"] = append(cp(), append([]byte{byte(c.Intn(2))}, c.Bytes(32)...)...)
+	{ // non-minimal length prefix: 0xfd len16 for a short value
+		p := append([]byte{0xfd, byte(vlen), byte(vlen >> 8)}, path[pl:]...)
+		if pl == 1 {
+			kinds["nonminimal-prefix"] = p
+		}
+	}
+	if other != nil {
+		sink := common.NewZeroCopySink(nil)
+		sink.WriteVarBytes(other)
+		kinds["other-member-value"] = append(sink.Bytes(), path[stepsOff:]...)
+	}
+}
+
+var mutationOrder = []string{"value-bitflip", "sibling-bitflip", "position-flip", "position-other", "drop-last-step",
+	"drop-first-step", "dup-last-step", "truncate", "trailing-short", "trailing-max-ignored", "trailing-one-too-many",
+	"extra-step", "nonminimal-prefix", "other-member-value"}
+
+// ---- one list ----
+
+func listCase(c *hx.Ctx, n int, everyMember bool, nMutated int) {
+	t := newTable()
+	values := make([][]byte, n)
+	for i := range values {
+		switch c.Intn(8) {
+		case 0:
+			values[i] = nil
+		case 1:
+			values[i] = c.Bytes(64) // the size of an inner-node preimage body
+		default:
+			values[i] = c.Bytes(1 + c.Intn(40))
+		}
+	}
+	dup := n >= 2 && c.Intn(6) == 0
+	if dup {
+		values[n-1] = values[c.Intn(n-1)] // duplicate value: getIndex finds the first one
+		c.Count("list:with-duplicate")
+	}
+	// domain-separation attack B needs a 64-byte value a||b with a = HashLeaf(secret)
+	secret := c.Bytes(1 + c.Intn(20))
+	attackIdx := -1
+	var attackB common.Uint256
+	if n >= 1 && !dup {
+		attackIdx = c.Intn(n)
+		a := merkle.HashLeaf(secret)
+		copy(attackB[:], c.Bytes(32))
+		values[attackIdx] = append(append([]byte{}, a[:]...), attackB[:]...)
+	}
+	hs := make([]common.Uint256, n)
+	for i, v := range values {
+		hs[i] = merkle.HashLeaf(v)
+		c.Eval()
+		if want := t.leaf(v); hs[i] != want {
+			c.Fail("hash:leaf-differs-from-spec", "HashLeaf(d) = sha256(0x00 || d)", replayIn{Kind: "hash", Data: hx.Hex(v)}, hx.Hex(hs[i][:]), hx.Hex(want[:]))
+		}
+	}
+	c.Count(fmt.Sprintf("list:n<=%d", 1<<uint(bits.Len(uint(n-1)))))
+	rfc, levels, ok := oracleRoots(c, t, hs)
+	if !ok {
+		return
+	}
+	var items []string
+	paths := make([][]byte, n)
+	for i := 0; i < n; i++ {
+		if !everyMember && i != 0 && i != n-1 && c.Intn(4) != 0 {
+			continue
+		}
+		p, coq := oracleComplete(c, hs, rfc, values[i])
+		paths[i] = p
+		items = append(items, "IPath "+hx.CoqBytes(values[i])+" "+coq)
+		if p != nil {
+			t.refProve(p)
+			c.Nontrivial(fmt.Sprintf("member/%d/%d/%x", n, i, hs[i][:4]))
+		}
+	}
+	// a non-member
+	{
+		nm := c.Bytes(1 + c.Intn(30))
+		_, coq, kind := leafPath(nm, hs)
+		c.Eval()
+		c.Count("leafpath[non-member]:" + kind)
+		if kind != "not-found" {
+			c.Fail("leafpath:nonmember-not-rejected", "MerkleLeafPath reports a value whose leaf hash is not in the list",
+				replayIn{Kind: "complete", Hashes: hexes(hs), Data: hx.Hex(nm), Note: "non-member"}, kind, "not-found")
+		}
+		t.leaf(nm)
+		items = append(items, "IPath "+hx.CoqBytes(nm)+" "+coq)
+	}
+	addProve := func(what string, p []byte, root common.Uint256) {
+		t.refProve(p)
+		coq := oracleSound(c, hs, root, p, what)
+		items = append(items, "IProve "+hx.CoqBytes(p)+" "+hx.CoqBytes(root[:])+" "+coq)
+		c.Nontrivial(fmt.Sprintf("prove/%s/%d/%x", what, n, p))
+	}
+	// mutated paths of a few members
+	for m := 0; m < nMutated; m++ {
+		i := c.Intn(n)
+		if paths[i] == nil {
+			continue
+		}
+		var other []byte
+		if n >= 2 {
+			j := (i + 1 + c.Intn(n-1)) % n
+			if !bytes.Equal(values[j], values[i]) {
+				other = values[j]
+			}
+		}
+		kinds := map[string][]byte{}
+		mutate(c, paths[i], len(values[i]), other, kinds)
+		// quick tier: a rotating subset of the mutation kinds per member keeps cases.v small
+		for q, name := range mutationOrder {
+			p, ok := kinds[name]
+			if !ok || (c.Quick() && (q+n+m)%3 != 0) {
+				continue
+			}
+			addProve(name, p, rfc)
+		}
+		var foreign common.Uint256
+		copy(foreign[:], c.Bytes(32))
+		if (n+m)%4 == 0 {
+			addProve("foreign-root", paths[i], foreign)
+		}
+	}
+	// domain-separation attack A: present the preimage body (left||right) of an inner node as a value
+	if len(levels) >= 2 && n >= 2 {
+		lv := 1 + c.Intn(len(levels)-1) // children level
+		sub := levels[lv]
+		j := 2 * c.Intn(len(sub)/2)
+		body := append(append([]byte{}, sub[j][:]...), sub[j+1][:]...)
+		addProve("attack:inner-node-as-value", encodePath(body, stepsFrom(levels, lv-1, j/2)), rfc)
+	}
+	// domain-separation attack B: the leaf a||b of the list read as an inner node over a = HashLeaf(secret)
+	if attackIdx >= 0 {
+		steps := append([]pstep{{1, attackB}}, stepsFrom(levels, len(levels)-1, attackIdx)...)
+		addProve("attack:leaf-as-inner-node", encodePath(secret, steps), rfc)
+	}
+	// 32 or more steps are never accepted
+	if n == 1 || n == 33 {
+		var steps []pstep
+		for s := 0; s < 32+c.Intn(2); s++ {
+			var h common.Uint256
+			copy(h[:], c.Bytes(32))
+			steps = append(steps, pstep{byte(c.Intn(2)), h})
+		}
+		addProve("long-path", encodePath(values[0], steps), rfc)
+	}
+	// the documented precondition: a list element that is itself an inner-node hash
+	if n == 2 {
+		var sib common.Uint256
+		copy(sib[:], c.Bytes(32))
+		v := c.Bytes(5)
+		el := merkle.HashChildren(merkle.HashLeaf(v), sib)
+		t2 := newTable()
+		t2.children(t2.leaf(v), sib)
+		p := encodePath(v, []pstep{{1, sib}})
+		got, coq, kind := prove(p, el)
+		c.Eval()
+		c.Count("probe:node-hash-as-list-element:" + kind)
+		if kind == "ok" && bytes.Equal(got, v) {
+			c.Note("precondition probe: a one-element list [HashChildren(HashLeaf(v), s)] lets the path (v, RIGHT s) prove v (theorem c27_node_as_leaf_accepts); the chain only ever appends HashLeaf(data) to the list")
+		}
+		c.Case(fmt.Sprintf("(CList %s %s %s %s [IProve %s %s %s])", t2.coq(), coqHashes([]common.Uint256{el}), hx.CoqBytes(el[:]),
+			hx.CoqList([]string{coqHashes([]common.Uint256{el})}), hx.CoqBytes(p), hx.CoqBytes(el[:]), coq),
+			map[string]interface{}{"kind": "probe-node-as-leaf", "element": hx.Hex(el[:]), "path": hx.Hex(p)})
+	}
+	var lv []string
+	for _, l := range levels {
+		lv = append(lv, coqHashes(l))
+	}
+	c.Case(fmt.Sprintf("(CList %s\n  %s\n  %s\n  %s\n  [%s])", t.coq(), coqHashes(hs), hx.CoqBytes(rfc[:]), hx.CoqList(lv), strings.Join(items, ";\n   ")),
+		map[string]interface{}{"kind": "list", "hashes": hexes(hs), "items": len(items)})
+	if n == 3 || n == 5 {
+		c.Sample(map[string]interface{}{"n": n, "hashes": hexes(hs), "root": hx.Hex(rfc[:]), "member0_path": hx.Hex(paths[0]), "items": len(items)})
+	}
+}
+
+func replay(c *hx.Ctx, in replayIn) {
+	hs := unhexes(in.Hashes)
+	t := newTable()
+	switch in.Kind {
+	case "complete":
+		rfc, _ := rfcRoot(hs)
+		oracleComplete(c, hs, rfc, hx.UnHex(in.Data))
+	case "sound":
+		rfc, _ := rfcRoot(hs)
+		oracleSound(c, hs, rfc, hx.UnHex(in.Path), in.Note)
+	case "roots":
+		oracleRoots(c, t, hs)
+	case "depth":
+		oracleDepth(c, in.N)
+	case "hash":
+		d := hx.UnHex(in.Data)
+		if got, want := merkle.HashLeaf(d), t.leaf(d); got != want {
+			c.Fail("hash:leaf-differs-from-spec", "HashLeaf(d) = sha256(0x00 || d)", in, hx.Hex(got[:]), hx.Hex(want[:]))
+		}
+	case "size":
+		var dl int
+		fmt.Sscanf(in.Note, "dataLen=%d", &dl)
+		oracleSize(c, in.N, dl)
+	}
+}
+
 func Run(c *hx.Ctx) {
 	c.CoqModule("Corr.C27")
+	var in replayIn
+	if c.ReplayInput(&in) {
+		replay(c, in)
+		return
+	}
+	for _, raw := range c.CorpusInputs() {
+		var ci replayIn
+		if jsonUnmarshal(raw, &ci) == nil {
+			replay(c, ci)
+		}
+	}
+	// 1. depth: exhaustive on the implementation for 1..2^20; recorded cases at boundaries and beyond
+	for n := 1; n <= 1<<20; n++ {
+		oracleDepth(c, n)
+	}
+	c.Eval()
+	c.Count("depth:exhaustive-1..2^20")
+	depthCase := func(n int) {
+		d := merkle.VerifDepth(n)
+		c.Eval()
+		c.Case(fmt.Sprintf("(CDepth %d %s)", n, hx.CoqZ(int64(d))), map[string]interface{}{"kind": "depth", "n": n, "depth": d})
+	}
+	for n := 0; n <= 33; n++ {
+		depthCase(n)
+	}
+	for k := 6; k <= 53; k++ {
+		for _, dlt := range []int{-1, 0, 1} {
+			depthCase(1<<uint(k) + dlt)
+		}
+	}
+	for i := 0; i < c.N(60, 600); i++ {
+		depthCase(1 + int(c.Rng.Uint64()>>uint(11+c.Intn(50))))
+	}
+	c.Count("depth:cases")
+	// 2. the hash functions with the real SHA-256 model
+	for i := 0; i < c.N(6, 40); i++ {
+		d := c.Bytes([]int{0, 1, 31, 54, 55, 56, 64, 100}[c.Intn(8)])
+		h := merkle.HashLeaf(d)
+		c.Eval()
+		c.Case(fmt.Sprintf("(CHash true %s [] %s)", hx.CoqBytes(d), hx.CoqBytes(h[:])), map[string]interface{}{"kind": "hashleaf", "data": hx.Hex(d)})
+		var l, r common.Uint256
+		copy(l[:], c.Bytes(32))
+		copy(r[:], c.Bytes(32))
+		hc := merkle.HashChildren(l, r)
+		c.Eval()
+		c.Case(fmt.Sprintf("(CHash false %s %s %s)", hx.CoqBytes(l[:]), hx.CoqBytes(r[:]), hx.CoqBytes(hc[:])), map[string]interface{}{"kind": "hashchildren"})
+	}
+	// 3. small lists end to end with the real SHA-256 model
+	for _, n := range []int{1, 2, 3}[:c.N(3, 3)] {
+		xs := make([][]byte, n)
+		var cx []string
+		hs := make([]common.Uint256, n)
+		for i := range xs {
+			xs[i] = c.Bytes(1 + c.Intn(10))
+			cx = append(cx, hx.CoqBytes(xs[i]))
+			hs[i] = merkle.HashLeaf(xs[i])
+		}
+		rfc, _ := rfcRoot(hs)
+		i := c.Intn(n)
+		_, coq := oracleComplete(c, hs, rfc, xs[i])
+		c.Case(fmt.Sprintf("(CSha %s %s %s %s)", hx.CoqList(cx), hx.CoqBytes(xs[i]), coq, hx.CoqBytes(rfc[:])), map[string]interface{}{"kind": "sha", "n": n})
+	}
+	// 4. the empty list: RFC root is sha256(""), MerkleLeafPath reports not-found (never reaches depth(0))
+	{
+		t := newTable()
+		rfc, _, _ := oracleRoots(c, t, nil)
+		_, coq, kind := leafPath([]byte{1, 2, 3}, nil)
+		c.Eval()
+		c.Count("leafpath[empty-list]:" + kind)
+		if kind != "not-found" {
+			c.Fail("leafpath:empty-list", "MerkleLeafPath on an empty list reports not-found", replayIn{Kind: "complete", Data: "010203"}, kind, "not-found")
+		}
+		t.leaf([]byte{1, 2, 3})
+		c.Case(fmt.Sprintf("(CList %s [] %s [] [IPath [1;2;3] %s])", t.coq(), hx.CoqBytes(rfc[:]), coq), map[string]interface{}{"kind": "empty-list"})
+	}
+	// 5. lists of 1..64 hashes, every member
+	maxN := 64
+	for n := 1; n <= maxN; n++ {
+		listCase(c, n, true, c.N(2, 6))
+	}
+	// thorough: more lists, larger sizes (sampled members)
+	for i := 0; i < c.N(0, 120); i++ {
+		n := 1 + c.Intn(64)
+		if i%10 == 0 {
+			n = 65 + c.Intn(200)
+		}
+		listCase(c, n, n <= 64, 4)
+	}
+	// 6. MAX_SIZE boundary (implementation only: inputs of one megabyte are not turned into Coq terms)
+	for _, n := range []int{1, 100, 31774} {
+		exact := merkle.MAX_SIZE - n*(common.UINT256_SIZE+1) - 8
+		oracleSize(c, n, exact)
+		oracleSize(c, n, exact+1)
+	}
+	oracleSize(c, 31775, 0)
 }
